@@ -8,6 +8,7 @@ CONSTANTS
   MaxSize = 6
   MaxGap = 6
   Modes = {"load"}
+  TrackBoundary = FALSE
   Variant = "code"
 INVARIANT TypeOK
 INVARIANT H_Bound
